@@ -9,6 +9,7 @@
 #include <new>
 extern "C" {
 int ir_throw_allowed = 0;
+uint64_t ir_live_allocs = 0;
 void RP_HARNESS(void);
 void rp_pre_fail(const char* fn, int k, const char* text) { printf("REPLAY: precondition #%d of %s not met by this input: %s\n", k, fn, text); fflush(stdout); exit(3); }
 void rp_ens_fail(const char* fn, int k, const char* text) { printf("REPLAY: REPRODUCED on the real code: ensures clause #%d of %s is false: %s\n", k, fn, text); fflush(stdout); _Exit(1); }
@@ -22,6 +23,12 @@ uint8_t* ir_memmove(uint8_t* d, uint8_t* s, uint64_t n) { return (uint8_t*)memmo
 uint8_t* ir_memset(uint8_t* d, uint8_t c, uint64_t n) { return (uint8_t*)memset(d, c, n); }
 void ir_throw_event(int) {}
 }
+void* operator new(size_t n) { void* p = malloc(n ? n : 1); if (!p) throw std::bad_alloc(); ir_live_allocs++; return p; }
+void* operator new[](size_t n) { void* p = malloc(n ? n : 1); if (!p) throw std::bad_alloc(); ir_live_allocs++; return p; }
+void operator delete(void* p) noexcept { if (p) ir_live_allocs--; free(p); }
+void operator delete[](void* p) noexcept { if (p) ir_live_allocs--; free(p); }
+void operator delete(void* p, size_t) noexcept { if (p) ir_live_allocs--; free(p); }
+void operator delete[](void* p, size_t) noexcept { if (p) ir_live_allocs--; free(p); }
 static int thrown(int kind, const char* what)
 {
   if (kind == ir_throw_allowed) { printf("REPLAY: exception of kind %d thrown as the contract expects (%s)\n", kind, what); return 0; }
